@@ -1333,6 +1333,17 @@ func TestVerifC19(t *testing.T) {
 		Scenario: c19Scenario,
 		EnumN:    func(tier string) int { return len(cases[tier]) },
 		EnumAt:   func(tier string, i int) []int { return cases[tier][i] },
+		EnumLabels: func(tier string, i int) []string {
+			c := cases[tier][i]
+			if c[0] == 7 {
+				return []string{"mode", "key", "alt"}[:len(c)]
+			}
+			l := []string{"mode", "seq_len"}
+			for len(l) < len(c) {
+				l = append(l, "cfg_kind", "sub_kind")
+			}
+			return l[:len(c)]
+		},
 		Runs:     map[string]int{"quick": 30000, "thorough": 1000000},
 		NoCrypto: true,
 		Real: []string{"ParseConfig (BurntSushi toml.DecodeFile via CJ_STATION_CONFIG) + RegConfig.ParseBlocklists", "NewRegistrationManager, RegistrationManager.OnReload",
